@@ -1,2 +1,126 @@
+"""Source constants of rawx12file.py / x12file.py -> Gen/SrcConsts.v (fail-closed)."""
+import ast
+
+from common import GenError, coq_str, coq_str_list, coq_opt_str, write_if_changed, HEADER, GEN, REPO
+from tables import parse, find_func
+
+
+def module_const(tree, name):
+    for n in tree.body:
+        if isinstance(n, ast.Assign) and len(n.targets) == 1 and isinstance(n.targets[0], ast.Name) \
+                and n.targets[0].id == name:
+            return n.value
+    raise GenError('module constant %s not found' % name)
+
+
+def nat_expr(node):
+    """int literal or product of int literals -> Coq nat term without a huge numeral"""
+    if isinstance(node, ast.Constant) and isinstance(node.value, int) and node.value >= 0:
+        if node.value > 4000:
+            return '(N.to_nat %d%%N)' % node.value
+        return '%d' % node.value
+    if isinstance(node, ast.BinOp) and isinstance(node.op, ast.Mult):
+        return '(%s * %s)' % (nat_expr(node.left), nat_expr(node.right))
+    raise GenError('unsupported constant expression at line %d' % node.lineno)
+
+
+def subscript_of(node, var):
+    """index expression of var[...] nodes"""
+    return isinstance(node, ast.Subscript) and isinstance(node.value, ast.Name) and node.value.id == var
+
+
+def int_const(n):
+    if isinstance(n, ast.Constant) and isinstance(n.value, int):
+        return n.value
+    if isinstance(n, ast.UnaryOp) and isinstance(n.op, ast.USub) and isinstance(n.operand, ast.Constant):
+        return -n.operand.value
+    raise GenError('expected int at line %d' % n.lineno)
+
+
+def attr_assign(func, attr):
+    """value node of `self.<attr> = ...` in func (first occurrence)"""
+    for n in ast.walk(func):
+        if isinstance(n, ast.Assign) and len(n.targets) == 1:
+            t = n.targets[0]
+            if isinstance(t, ast.Attribute) and t.attr == attr and isinstance(t.value, ast.Name) and t.value.id == 'self':
+                return n.value
+    raise GenError('assignment to self.%s not found in %s' % (attr, func.name))
+
+
 def main():
-    pass
+    out = [HEADER % ('pyx12/rawx12file.py, pyx12/x12file.py', 'tools/gen/consts.py')]
+    out.append('From PX.Lib Require Import Base.\n\n')
+    raw = parse('pyx12/rawx12file.py')
+    out.append('Definition ISA_LEN : nat := %s.\n' % nat_expr(module_const(raw, 'ISA_LEN')))
+    out.append('Definition DEFAULT_BUFSIZE : nat := %s.\n' % nat_expr(module_const(raw, 'DEFAULT_BUFSIZE')))
+    init = find_func(raw, '__init__', 'RawX12File')
+    # self.icvn = line[84:89]
+    v = attr_assign(init, 'icvn')
+    if not (subscript_of(v, 'line') and isinstance(v.slice, ast.Slice)):
+        raise GenError('icvn is not a slice of line')
+    out.append('Definition icvn_lo : nat := %d.\nDefinition icvn_hi : nat := %d.\n' % (
+        int_const(v.slice.lower), int_const(v.slice.upper)))
+    # accepted versions: `if self.icvn not in (...)`
+    known = None
+    for n in ast.walk(init):
+        if isinstance(n, ast.Compare) and len(n.ops) == 1 and isinstance(n.ops[0], ast.NotIn) \
+                and isinstance(n.left, ast.Attribute) and n.left.attr == 'icvn':
+            known = [e.value for e in n.comparators[0].elts]
+    if known is None:
+        raise GenError('version test not found')
+    out.append('Definition icvn_known : list str := %s.\n' % coq_str_list(known))
+    # the four separator positions
+    def pos_of(attr):
+        v = attr_assign(init, attr)
+        if isinstance(v, ast.IfExp):
+            v = v.body
+        if not subscript_of(v, 'line'):
+            raise GenError('%s is not taken from line[...]' % attr)
+        return int_const(v.slice)
+    if pos_of('seg_term') != -1 or pos_of('subele_term') != -2:
+        raise GenError('seg_term/subele_term are no longer line[-1]/line[-2]')
+    out.append('Definition ele_term_pos : nat := %d.\n' % pos_of('ele_term'))
+    out.append('Definition rep_term_pos : nat := %d.\n' % pos_of('repetition_term'))
+    # x12file: open() arguments for a source given by path
+    xf = parse('pyx12/x12file.py')
+    rinit = find_func(xf, '__init__', 'X12Reader')
+    mode, newline, enc = None, 'DEFAULT', None
+    for n in ast.walk(rinit):
+        if isinstance(n, ast.Call) and isinstance(n.func, ast.Name) and n.func.id == 'open':
+            if len(n.args) >= 2:
+                mode = n.args[1].value
+            for kw in n.keywords:
+                if kw.arg == 'mode':
+                    mode = kw.value.value
+                if kw.arg == 'newline':
+                    newline = kw.value.value
+                if kw.arg == 'encoding':
+                    enc = kw.value.value
+    if mode is None:
+        mode = 'r'
+    out.append('Definition open_mode : str := %s.\n' % coq_str(mode))
+    out.append('(* newline argument of open(): None = universal-newline translation (also the default), '
+               "'' = no translation *)\n")
+    out.append('Definition open_newline_translates : bool := %s.\n' % (
+        'true' if newline in ('DEFAULT', None) else 'false'))
+    out.append('Definition open_encoding : str := %s.\n' % coq_str(enc or ''))
+    # segment ids not counted in seg_count
+    base = find_func(xf, '_parse_segment', 'X12Base')
+    excl = None
+    for n in ast.walk(base):
+        if isinstance(n, ast.Compare) and len(n.ops) == 1 and isinstance(n.ops[0], ast.NotIn) \
+                and isinstance(n.left, ast.Name) and n.left.id == 'seg_id':
+            excl = [e.value for e in n.comparators[0].elts]
+    if excl is None:
+        raise GenError('uncounted segment ids not found')
+    out.append('Definition uncounted_ids : list str := %s.\n' % coq_str_list(excl))
+    # writer defaults
+    winit = find_func(xf, '__init__', 'X12Writer')
+    names = [a.arg for a in winit.args.args]
+    defaults = winit.args.defaults
+    dmap = dict(zip(names[len(names) - len(defaults):], [d.value for d in defaults]))
+    for k in ('seg_term', 'ele_term', 'subele_term', 'eol', 'repetition_term'):
+        if k not in dmap:
+            raise GenError('writer default %s missing' % k)
+        out.append('Definition writer_default_%s : str := %s.\n' % (k, coq_str(dmap[k])))
+    write_if_changed(GEN + '/SrcConsts.v', ''.join(out))
